@@ -148,7 +148,7 @@ func newNotaryEnv(c *Ctx) *notaryEnv {
 	e.srv = notaryserver.VerifNewServer(e.prov, nopTele{}, nopLog{}, w.ver, e.acc, e.cache, e.flash, pp, notaryDataSize)
 	c.Line("N %d", notaryDataSize)
 	gen := n.ab.VerifSnapshot().Vertices[0]
-	c.Line("GEN %s", trxFields(&gen.Transaction))
+	c.Line("NGEN %s", trxFields(&gen.Transaction))
 	return e
 }
 
@@ -293,6 +293,14 @@ func (e *notaryEnv) data(addr string) []byte {
 func (e *notaryEnv) expire() {
 	time.Sleep(1050 * time.Millisecond)
 	e.c.Line("EXPIRE")
+}
+
+// forget: the throttle window has passed (the real flashback memory drops entries after its life window)
+func (e *notaryEnv) forget() {
+	e.flash.mux.Lock()
+	e.flash.set = map[string]bool{}
+	e.flash.mux.Unlock()
+	e.c.Line("FORGET")
 }
 
 func (e *notaryEnv) waiting(r *pb.SignedHash) (string, error) {
@@ -581,6 +589,8 @@ func init() {
 						c.Violate("C16", "unauthenticated-read:"+call+":"+beh, fmt.Sprintf("%s returned [%s] to a caller with %s", call, got, beh),
 							map[string]interface{}{"section": "notary", "step": step, "round": round})
 					}
+				case k < 93:
+					e.forget()
 				case k < 97: // balance
 					who := pick()
 					other := pick()
@@ -620,6 +630,32 @@ func init() {
 						h = fill(c, 32, false)
 					}
 					note("saved", beh, e.saved(signedHash(who, who.Address(), h)))
+				}
+			}
+
+			// a balance already cached by its owner must still not be served to other keys
+			for i := 0; i < 3; i++ {
+				who, other := pick2()
+				e.forget()
+				note("balance", "honest", e.balance(signedHash(who, who.Address(), []byte(who.Address()))))
+				for _, beh := range []string{"signed-by-other-key", "garbage-signature", "other-address-as-data"} {
+					e.forget()
+					var r *pb.SignedHash
+					switch beh {
+					case "signed-by-other-key":
+						r = signedHash(other, who.Address(), []byte(who.Address()))
+					case "garbage-signature":
+						r = signedHash(who, who.Address(), []byte(who.Address()))
+						r.Signature = fill(c, 64, false)
+					default:
+						r = signedHash(other, who.Address(), []byte(other.Address()))
+					}
+					err := e.balance(r)
+					note("balance", "cached/"+beh, err)
+					if err == nil {
+						c.Violate("C16", "unauthenticated-read:balance:"+beh, "a cached balance was returned to a caller with "+beh,
+							map[string]interface{}{"section": "notary", "scenario": "cached-balance", "round": round})
+					}
 				}
 			}
 
@@ -672,7 +708,7 @@ func init() {
 					c.Violate("C16", "confirmed-but-not-sealed", "one call succeeded but the ledger does not carry the transaction", info)
 				}
 				// resynchronise the model: replay what happened as one sequential winner
-				c.Line("SYNC %s", trxHashesLine(e))
+				c.Line("SYNC %s | %s", hexs(t.Hash[:]), trxHashesLine(e))
 			}
 			e.w.Close()
 		}
